@@ -32,6 +32,9 @@ const (
 	c11Plain c11Variant = iota
 	c11Expensive
 	c11Batch
+	c11BatchPtr     // batch filter / sort functions over map[batch.Index]*c11Item (sources copied per index)
+	c11FallbackOff  // batch-with-fallback, the flag says "do not batch": the plain fallback implementation must be used
+	c11FallbackOn   // batch-with-fallback, the flag says "batch"
 )
 
 func c11Schema(items []c11Item, v c11Variant) *graphql.Schema {
@@ -74,6 +77,53 @@ func c11Schema(items []c11Item, v c11Variant) *graphql.Schema {
 				}
 				return out, nil
 			}))
+	case c11BatchPtr:
+		opts = append(opts,
+			schemabuilder.BatchFilterField("name", func(ctx context.Context, in map[batch.Index]*c11Item) (map[batch.Index]string, error) {
+				out := map[batch.Index]string{}
+				for k, i := range in {
+					out[k] = i.Name
+				}
+				return out, nil
+			}),
+			schemabuilder.BatchSortField("rank", func(ctx context.Context, in map[batch.Index]*c11Item) (map[batch.Index]int64, error) {
+				out := map[batch.Index]int64{}
+				for k, i := range in {
+					out[k] = i.Rank
+				}
+				return out, nil
+			}),
+			schemabuilder.BatchSortField("name", func(ctx context.Context, in map[batch.Index]*c11Item) (map[batch.Index]string, error) {
+				out := map[batch.Index]string{}
+				for k, i := range in {
+					out[k] = i.Name
+				}
+				return out, nil
+			}))
+	case c11FallbackOff, c11FallbackOn:
+		flag := func(context.Context) bool { return v == c11FallbackOn }
+		opts = append(opts,
+			schemabuilder.BatchFilterFieldWithFallback("name", func(ctx context.Context, in map[batch.Index]c11Item) (map[batch.Index]string, error) {
+				out := map[batch.Index]string{}
+				for k, i := range in {
+					out[k] = i.Name
+				}
+				return out, nil
+			}, func(ctx context.Context, i c11Item) (string, error) { return i.Name, nil }, flag),
+			schemabuilder.BatchSortFieldWithFallback("rank", func(ctx context.Context, in map[batch.Index]c11Item) (map[batch.Index]int64, error) {
+				out := map[batch.Index]int64{}
+				for k, i := range in {
+					out[k] = i.Rank
+				}
+				return out, nil
+			}, func(ctx context.Context, i c11Item) (int64, error) { return i.Rank, nil }, flag),
+			schemabuilder.BatchSortFieldWithFallback("name", func(ctx context.Context, in map[batch.Index]c11Item) (map[batch.Index]string, error) {
+				out := map[batch.Index]string{}
+				for k, i := range in {
+					out[k] = i.Name
+				}
+				return out, nil
+			}, func(ctx context.Context, i c11Item) (string, error) { return i.Name, nil }, flag))
 	}
 	sb.Query().FieldFunc("items", func() []c11Item { return items }, opts...)
 	sb.Mutation().FieldFunc("noop", func() bool { return true })
@@ -171,9 +221,12 @@ func TestVerifBounded_C11_Walk(t *testing.T) {
 		}
 	}
 	for li, items := range lists {
-		for _, variant := range []c11Variant{c11Plain, c11Expensive, c11Batch} {
+		for _, variant := range []c11Variant{c11Plain, c11Expensive, c11Batch, c11BatchPtr, c11FallbackOff, c11FallbackOn} {
 			if variant != c11Plain && li%2 == 1 {
 				continue // the expensive and batch implementations on every second list
+			}
+			if variant >= c11BatchPtr && li != 2 && li != 4 {
+				continue // the pointer-map and batch-with-fallback implementations on two lists (one with ties)
 			}
 			schema := c11Schema(items, variant)
 			for _, sortBy := range []string{"", "rank", "name"} {
@@ -199,6 +252,45 @@ func TestVerifBounded_C11_Walk(t *testing.T) {
 							}
 							for i := -1; i < len(want); i++ {
 								for j := i + 1; j <= len(want); j++ {
+									// no page size at all: the whole window between the two cursors
+									{
+										var parts []string
+										if i >= 0 {
+											parts = append(parts, fmt.Sprintf(`after: "%s"`, cur[i]))
+										}
+										if j < len(want) {
+											parts = append(parts, fmt.Sprintf(`before: "%s"`, cur[j]))
+										}
+										args := strings.Join(parts, ", ")
+										if args == "" {
+											args = strings.TrimPrefix(common, ", ")
+										} else {
+											args += common
+										}
+										if args != "" {
+											evals++
+											p, query, err := c11Fetch(schema, args)
+											if err != nil {
+												fail(query, "error: "+err.Error())
+											} else {
+												window := want[i+1 : j]
+												var got []int64
+												for _, e := range p.Items.Edges {
+													got = append(got, e.Node.Id)
+												}
+												if fmt.Sprint(got) != fmt.Sprint(append([]int64{}, window...)) && !(len(got) == 0 && len(window) == 0) {
+													fail(query, fmt.Sprintf("without a page size the page is %v, the window between the cursors is %v", got, window))
+												}
+												// nothing is cut short by a page size: only "elements exist beyond the element named by before / after"
+												if wantNext := j < len(want)-1; p.Items.PageInfo.HasNextPage != wantNext {
+													fail(query, fmt.Sprintf("hasNextPage %v, the property demands %v (elements exist beyond `before`: %v)", p.Items.PageInfo.HasNextPage, wantNext, wantNext))
+												}
+												if wantPrev := i > 0; p.Items.PageInfo.HasPrevPage != wantPrev {
+													fail(query, fmt.Sprintf("hasPrevPage %v, the property demands %v", p.Items.PageInfo.HasPrevPage, wantPrev))
+												}
+											}
+										}
+									}
 									for _, size := range []int{1, 2, 10} {
 										for _, dir := range []string{"first", "last"} {
 											args := fmt.Sprintf("%s: %d", dir, size)
